@@ -643,6 +643,11 @@ class Node:
                 for _, item_value in attr_node.yaml_node.value):
             return      # invalid format
 
+        if not all(
+                isinstance(item_key, yaml.ScalarNode)
+                for item_key, _ in attr_node.yaml_node.value):
+            return      # invalid format, keys must be scalars
+
         start_mark = attr_node.yaml_node.start_mark
         end_mark = attr_node.yaml_node.end_mark
         object_list = []
